@@ -316,14 +316,27 @@ def run_property(pid, tier):
     if len(set(ids)) != len(ids):
         raise env.HarnessError("duplicate cell ids")
     nproc = max(1, min(NPROC, len(cells)))
-    nchunks = max(1, min(len(cells), nproc * 6))
-    chunks = [cells[i::nchunks] for i in range(nchunks)]
+    isolate = getattr(prop, "ISOLATE", False)
+    if isolate:
+        # cells that change process-wide state (e.g. vector.register_awkward()) are grouped, and every
+        # chunk runs in a fresh process
+        groups = collections.OrderedDict()
+        for c in cells:
+            groups.setdefault(prop.cell_group(c), []).append(c)
+        chunks = []
+        for g in groups.values():
+            k = max(1, min(len(g), nproc * 2))
+            chunks.extend(g[i::k] for i in range(k))
+    else:
+        nchunks = max(1, min(len(cells), nproc * 6))
+        chunks = [cells[i::nchunks] for i in range(nchunks)]
     serial = getattr(prop, "SERIAL", False) or nproc == 1
-    if serial:
+    if serial and not isolate:
         outs = [_worker((pid, tier, ch)) for ch in chunks]
     else:
         ctx_mp = multiprocessing.get_context("spawn")
-        with concurrent.futures.ProcessPoolExecutor(max_workers=nproc, mp_context=ctx_mp) as pool:
+        kw = {"max_tasks_per_child": 1} if isolate else {}
+        with concurrent.futures.ProcessPoolExecutor(max_workers=nproc, mp_context=ctx_mp, **kw) as pool:
             outs = list(pool.map(_worker, [(pid, tier, ch) for ch in chunks]))
     for status, payload in outs:
         if status != "ok":
